@@ -57,7 +57,7 @@ func (v *Verifier) newCtx(key string) (*FnCtx, error) {
 		inputs: map[string]string{}, usedCons: map[string]bool{}, labels: map[string]int{}, nObl: map[string]int{},
 		errGlobals: map[string]bool{}, boxedScalars: map[types.Object]string{}, typeTags: map[string]bool{},
 		closureLits: map[types.Object]*ast.FuncLit{}, inModScan: map[*ast.FuncLit]bool{}, hiddenIdx: map[ast.Node]types.Object{},
-		rangeIdx: map[ast.Node]types.Object{}, rangeLen: map[ast.Node]string{}, callOrds: map[*ast.CallExpr]int{},
+		rangeIdx: map[ast.Node]types.Object{}, rangeLen: map[ast.Node]string{}, callOrds: map[*ast.CallExpr]int{}, mapSeqOf: map[ast.Node]*Val{},
 		nocontract: map[string]bool{}, externNoCon: map[string]bool{}, inTrial: map[ast.Node]bool{}, iterExtra: map[ast.Node][]types.Object{}, autoFramed: map[string]bool{}, named: map[string]string{}, escaped: map[string]bool{}, inlining: map[string]int{}, gotoTargets: map[string]bool{}, gotoActive: map[string]bool{}}
 	c.nopanic = con.Flags["nopanic"]
 	c.ieee = con.Flags["ieee"]
